@@ -274,7 +274,7 @@ func runC07(c *Ctx) {
 	// (2) run-structured sequences around the boundaries
 	n := 6000
 	if c.Thorough {
-		n = 120000
+		n = 1000000
 	}
 	for k := 0; k < n; k++ {
 		w := 1 + k%4
@@ -386,7 +386,7 @@ func levelField(wDef, wRep int) (parquet.OptionalField, *parquet.Metadata, int, 
 func runC07Public(c *Ctx, s *c07) {
 	n := 600
 	if c.Thorough {
-		n = 12000
+		n = 100000
 	}
 	for k := 0; k < n; k++ {
 		wDef := 1 + k%4
@@ -527,7 +527,7 @@ func runC17InSitu(c *Ctx) {
 	s := &c07{c: c, nviol: map[string]int{}}
 	n := 200
 	if c.Thorough {
-		n = 4000
+		n = 20000
 	}
 	for k := 0; k < n; k++ {
 		w := 1 + k%4
